@@ -4,6 +4,7 @@ import (
 	"bytes"
 	"encoding/json"
 	"errors"
+	"fmt"
 )
 
 func (v *VMValue) ToJSONRaw(save map[*VMValue]bool) ([]byte, error) {
@@ -119,6 +120,10 @@ func (v *VMValue) ToJSONRaw(save map[*VMValue]bool) ([]byte, error) {
 
 	case VMTypeNativeFunction:
 		fd, _ := v.ReadNativeFunctionData()
+		if fd != nil && fd.Self != nil {
+			// x = [1,2].push: 只存名字会丢掉绑定的对象，读回来就成了另一个值
+			return nil, errors.New("值错误: 绑定了对象的方法无法序列化")
+		}
 		return json.Marshal(struct {
 			TypeId VMValueType `json:"t"`
 			Value  struct {
@@ -144,7 +149,8 @@ func (v *VMValue) ToJSONRaw(save map[*VMValue]bool) ([]byte, error) {
 			}{fd.Name},
 		})
 	}
-	return nil, nil
+	// this 等内部类型、未知的类型号: 没有 JSON 形式。不能什么都不写(那样整个文档就不是合法的 JSON 了)
+	return nil, fmt.Errorf("值错误: 类型 %d 的值无法序列化", v.TypeId)
 }
 
 func (v *VMValue) ToJSON() ([]byte, error) {
